@@ -142,4 +142,16 @@ def scanHeader : List (List String) → List Elem → Nat → Except HdrErr (Lis
         | [] => .error .badProperty
       else scanHeader rest acc (n + 1)
 
+/-! ### glTF interleaved (strided) accessor read: `_read_buffers`, `byteStride` branch -/
+
+/-- the two asserted guards: `stride > 0` and `0 <= start <= start + length <= len(data)` with
+    `length = (count - 1) * stride + per_row` -/
+def stridedOk (n start stride count perRow : Int) : Bool :=
+  decide (0 < stride) && decide (0 ≤ start) && decide (start ≤ start + ((count - 1) * stride + perRow))
+    && decide (start + ((count - 1) * stride + perRow) ≤ n)
+
+/-- byte `j` of row `i` of the `as_strided` view (shape `[count, per_row]`, strides `[stride, 1]`) over the window
+    `frombuffer(data, offset=start, count=length)`: its position in `data` -/
+def stridedIndex (start stride i j : Int) : Int := start + i * stride + j
+
 end TV.Load
